@@ -23,7 +23,8 @@ def run(ctx):
                 "default}; non-trivial = distinct (world, base, k) where the two algorithms are both evaluated")
     vw = [("fcc", 0, 1, 1), ("hcp", 0, 2, 1), ("honeycomb", 0, 1, 1), ("b2", 0, 1, 1)]
     if not quick:
-        vw += [("bcc", 0, 1, 1), ("square", 0, 1, 2), ("hex2d", 0, 1, 1), ("polarrect", 1, 2, 1), ("sc", 0, 1, 1)]
+        vw += [("bcc", 0, 1, 1), ("square", 0, 1, 2), ("hex2d", 0, 1, 1), ("polarrect", 1, 2, 1), ("sc", 0, 1, 1),
+               ("wurtzite", 0, 1, 1)]
     cases, metas = [], []
     for name, chem, shell, nth in vw:
         s = calc.vacancy(name, chem, shell, nth, rng)
